@@ -2,7 +2,7 @@
 import json
 
 import vlib
-from props.common import role1, harness
+from props.common import role1, harness, diverse
 
 
 def run(ctx):
@@ -17,7 +17,7 @@ def run(ctx):
     r = vlib.run_tlc(ctx.sc, "MC_Auth", "Gen_Auth.cfg", collect_json=True, workers=1, simulate=n_sim, depth=20,
                      seed=ctx.seed, timeout=3000)
     gate = [x for x in r.lines if isinstance(x, dict)]
-    sims = [x for x in r.lines if isinstance(x, list)][:n_sim]
+    sims = diverse([x for x in r.lines if isinstance(x, list)], n_sim, seed=ctx.seed)
     lines = [x for x in lines if isinstance(x, list)] + sims
     p = ctx.sc.path("c09.jsonl")
     with open(p, "w") as f:
